@@ -39,7 +39,7 @@ def oracle_k0(p, d):
     else:
         B = energy.strain_basis(p, xs, ys)
     lam = d['lam']
-    F, SF = clt.ABD6(lam['stack'], lam['plyts'], lam['laminaprops'], lam['offset'])
+    F, SF = clt.ABD6(lam['stack'], lam['plyts'], lam['laminaprops'], lam['offset'], force_ortho=bool(lam.get('force_ortho')))
     K, S = energy.quad_form(B, F, w)
     # scale: also account for cancellation inside F (use SF in the scale)
     _, S2 = energy.quad_form(B, SF, w)
@@ -114,6 +114,45 @@ def run_case(rng, tier, idx):
         ratio, ij = entrywise_excess(bs, bf, St, 1e-9)
         c.judge('sub-intervals tiling the width add up to the full matrix', ratio * 1e-9, 1e-9,
                 data={'cuts': cuts, 'entry': ij, 'sum': bs[ij], 'full': bf[ij]})
+    # the same object after its definition changed: k0 must be the energy Hessian of the panel as it is defined NOW
+    if d['model'] != 'kpanel' and rng.random() < 0.3:
+        import copy
+        d2 = copy.deepcopy(d)
+        what = str(rng.choice(['a', 'b', 'flags', 'swap_mn', 'thickness', 'angles', 'offset']))
+        l2 = d2['lam']
+        if what == 'a':
+            d2['a'] = d['a'] * float(rng.uniform(0.6, 1.6)); p.a = d2['a']
+        elif what == 'b' and 'y1' not in d:
+            d2['b'] = d['b'] * float(rng.uniform(0.6, 1.6)); p.b = d2['b']
+        elif what == 'flags':
+            d2['flags'] = gen.flags(rng); gen.apply_flags(p, d2['flags'])
+        elif what == 'swap_mn':
+            d2['m'], d2['n'] = d['n'], d['m']; p.m, p.n = d2['m'], d2['n']
+        elif what == 'thickness':
+            f = float(rng.uniform(0.5, 2.0))
+            l2['plyts'] = [t * f for t in l2['plyts']]
+            # through the per-ply list: the scalar short-hand `plyt` is only read while `plyts` is still unset
+            p.plyts = list(l2['plyts'])
+        elif what == 'angles':
+            dth = float(rng.uniform(5, 85))
+            l2['stack'] = [th + dth for th in l2['stack']]; p.stack = list(l2['stack'])
+        elif what == 'offset':
+            l2['offset'] = float(rng.uniform(-2, 2) * sum(l2['plyts'])); p.offset = l2['offset']
+        else:
+            what = 'none'
+        if what != 'none':
+            c.tag('redefined:' + what)
+            c.desc['redefined'] = {'what': what, 'panel': d2}
+            try:
+                K2 = p.calc_k0(size=d['size'], row0=d['row0'], col0=d['row0'], silent=True)
+            except Exception as e:
+                return c.reject('%s in calc_k0 after redefinition (%s): %s' % (type(e).__name__, what, str(e)[:100]))
+            b2, _ = energy.block(K2, d['row0'], size_p)
+            Ko2, S2 = oracle_k0(p, d2)
+            tol = TOL * gen.subinterval_amplification(d2)
+            ratio, ij = entrywise_excess(b2, Ko2, S2, tol)
+            c.judge('k0 of the redefined object equals the energy Hessian of the new definition', ratio * tol, tol,
+                    data={'what': what, 'entry': ij, 'code': b2[ij], 'oracle': Ko2[ij]})
     # constant pre-load adds exactly the matching initial-stress matrix
     if rng.random() < 0.35:
         c.tag('clause:preload')
